@@ -35,27 +35,8 @@ func init() {
 		NotDecided:  "convergence over all delivery orders (follows from the LWW table for distinct update times by algebra, not mechanically checked); delivery by the transport (C19); effectiveness of a merged silence for muting is C02.5.",
 	}
 
-	reg("C09", "C09.1", "T6", "silence state.merge is a last-writer-wins join: expired→reject; unknown id or strictly newer→store s[id]=e; else unchanged", func(o *Ob) {
-		e := o.E
-		fn := o.Fn("(am/silence.state).merge")
-		notHas := "!recv[p0.Silence.Id]#1"
-		o.Table(fn, "merge", []Row{
-			{Name: "past retention", Assume: A(silExp), Ret: [][]string{Vals("false"), Vals("false")}, Never: []func(ssa.Instruction) bool{isMapUpdate}},
-			{Name: "unknown id", Assume: A(silExp.Neg(), silHas.Neg()), Ret: [][]string{Vals("true"), Vals("true", notHas)}, Must: []func(ssa.Instruction) bool{isMapUpdate}},
-			{Name: "known, incoming strictly newer", Assume: A(silExp.Neg(), silHas, silNewer), Ret: [][]string{Vals("true"), Vals("false", notHas)}, Must: []func(ssa.Instruction) bool{isMapUpdate}},
-			{Name: "known, incoming not newer", Assume: A(silExp.Neg(), silHas, silNewer.Neg()), Ret: [][]string{Vals("false"), Vals("false")}, Never: []func(ssa.Instruction) bool{isMapUpdate}},
-		})
-		n := 0
-		for _, in := range AllInstrs(fn) {
-			if mu, ok := in.(*ssa.MapUpdate); ok {
-				n++
-				o.Site(in, "state write "+e.X(fn, mu.Map)+"["+e.X(fn, mu.Key)+"] = "+e.X(fn, mu.Value))
-				o.Check(e.X(fn, mu.Map) == "recv" && e.X(fn, mu.Key) == "p0.Silence.Id" && e.X(fn, mu.Value) == "p0", "merge|write-shape", "merge must store exactly s[e.Silence.Id] = e", in)
-			}
-		}
-		o.Check(n >= 1, "merge|no-write", "merge contains no state write", nil)
-		o.MinSites(5)
-	})
+	reg("C09", "C09.1", "T6", "silence state.merge is a last-writer-wins join: expired→reject; unknown id or strictly newer→store s[id]=e; else unchanged", silenceMergeTableRule)
+	reg("C02", "C02.9", "T6", "what is stored is the newest version: silence state.merge is a last-writer-wins join (a reverted extension or expiry changes which alerts are muted)", silenceMergeTableRule)
 
 	reg("C09", "C09.2", "T3", "elements of the silence state map are written only by merge, the snapshot loader and GC; Silences.st is replaced only by New/loadSnapshot", func(o *Ob) {
 		allowed := map[string]string{
@@ -234,4 +215,27 @@ func init() {
 		o.Check(len(ex) == 1 && e.X(mm, ex[0].Val) == "p0.ExpiresAt", "marshal-expires", "marshalMeshSilence must keep the entry's ExpiresAt", nil)
 		o.MinSites(2)
 	})
+}
+
+// silenceMergeTableRule: silence state.merge is a last-writer-wins join writing exactly s[id] = e.
+func silenceMergeTableRule(o *Ob) {
+	e := o.E
+	fn := o.Fn("(am/silence.state).merge")
+	notHas := "!recv[p0.Silence.Id]#1"
+	o.Table(fn, "merge", []Row{
+		{Name: "past retention", Assume: A(silExp), Ret: [][]string{Vals("false"), Vals("false")}, Never: []func(ssa.Instruction) bool{isMapUpdate}},
+		{Name: "unknown id", Assume: A(silExp.Neg(), silHas.Neg()), Ret: [][]string{Vals("true"), Vals("true", notHas)}, Must: []func(ssa.Instruction) bool{isMapUpdate}},
+		{Name: "known, incoming strictly newer", Assume: A(silExp.Neg(), silHas, silNewer), Ret: [][]string{Vals("true"), Vals("false", notHas)}, Must: []func(ssa.Instruction) bool{isMapUpdate}},
+		{Name: "known, incoming not newer", Assume: A(silExp.Neg(), silHas, silNewer.Neg()), Ret: [][]string{Vals("false"), Vals("false")}, Never: []func(ssa.Instruction) bool{isMapUpdate}},
+	})
+	n := 0
+	for _, in := range AllInstrs(fn) {
+		if mu, ok := in.(*ssa.MapUpdate); ok {
+			n++
+			o.Site(in, "state write "+e.X(fn, mu.Map)+"["+e.X(fn, mu.Key)+"] = "+e.X(fn, mu.Value))
+			o.Check(e.X(fn, mu.Map) == "recv" && e.X(fn, mu.Key) == "p0.Silence.Id" && e.X(fn, mu.Value) == "p0", "merge|write-shape", "merge must store exactly s[e.Silence.Id] = e", in)
+		}
+	}
+	o.Check(n >= 1, "merge|no-write", "merge contains no state write", nil)
+	o.MinSites(5)
 }
